@@ -8,4 +8,20 @@ var g2lUnits = []*g2lUnit{
 		fns: []string{"isIdentChar", "isBadNum", "isNum", "parseInt", "parsePrerelease", "parseBuild", "parse",
 			"compareInt", "nextIdent", "comparePrerelease", "IsValid", "Canonical", "Major", "MajorMinor", "Prerelease", "Build", "Compare", "Max"},
 	},
+	{
+		out: "FnTlog", ns: "Tlog", pkgDir: "sumdb/tlog",
+		fns: []string{"maxpow2", "StoredHashIndex", "SplitStoredHashIndex", "StoredHashCount",
+			"StoredHashesForRecordHash", "TreeHash", "subTreeIndex", "subTreeHash",
+			"ProveRecord", "leafProofIndex", "leafProof", "CheckRecord", "runRecordProof",
+			"ProveTree", "treeProofIndex", "treeProof", "CheckTree", "runTreeProof"},
+		checked: map[string]bool{"maxpow2": true, "StoredHashIndex": true, "SplitStoredHashIndex": true, "StoredHashCount": true,
+			"StoredHashesForRecordHash": true, "TreeHash": true, "subTreeIndex": true, "subTreeHash": true,
+			"ProveRecord": true, "leafProofIndex": true, "leafProof": true, "CheckRecord": true, "runRecordProof": true,
+			"ProveTree": true, "treeProofIndex": true, "treeProof": true, "CheckTree": true, "runTreeProof": true},
+		absTypes: map[string]string{"Hash": "H"},
+		absFuncs: map[string]string{"NodeHash": "node"},
+		absVars:  map[string]string{"emptyHash": "empty"},
+		absSigs:  map[string]string{"node": "H → H → H", "empty": "H"},
+		ifaces:   map[string]string{"HashReader": "List Int → (List H × Option String)"},
+	},
 }
